@@ -67,7 +67,9 @@ RIdx(sys) == 1..Len(sys.rx)
 Subst(sys) == ToSet(sys.ss)
 SysKeys(sys) == UNION { RKeys(sys.rx[i]) : i \in RIdx(sys) }
 KeysOf(sys, I) == UNION { RKeys(sys.rx[i]) : i \in I }
-NoDup(sys) == \A i, j \in RIdx(sys) : i # j => sys.rx[i] # sys.rx[j]
+(* the same reaction: equal in all four parts (an absent inactive part = an empty one) *)
+SameRx(r1, r2) == r1.reac = r2.reac /\ r1.prod = r2.prod /\ IReac(r1) = IReac(r2) /\ IProd(r1) = IProd(r2)
+NoDup(sys) == \A i, j \in RIdx(sys) : i # j => ~SameRx(sys.rx[i], sys.rx[j])
 WellFormed(sys) == IsInj(sys.ss) /\ SysKeys(sys) \subseteq Subst(sys) /\ \A i \in RIdx(sys) : IsReaction(sys.rx[i])
 
 ------------------------------------------------------------------------------
@@ -96,6 +98,20 @@ Mixed(sys) == { s \in Subst(sys) : Produced(sys, s) /\ Consumed(sys, s) }
 IsReverse(r1, r2) == \A s \in RKeys(r1) \cup RKeys(r2) :
     AllReac(r1, s) = AllProd(r2, s) /\ AllProd(r1, s) = AllReac(r2, s)
 IdentifyEquilibria(sys) == { p \in RIdx(sys) \X RIdx(sys) : p[1] < p[2] /\ IsReverse(sys.rx[p[1]], sys.rx[p[2]]) }
+(* Forward/backward is decided on the ALL stoichiometries (active + inactive), as the library  *)
+(* documents in its code.  When two reactions of the system have the same all-stoichiometry    *)
+(* (a repeated reaction, or e.g. 3 C -> 2 C and C + (2 C) -> 2 C) a reaction can have several   *)
+(* partners and "the pairs" are not determined by the definition: then the answer is open -     *)
+(* any duplicate-free list of genuine pairs that lists every reaction having a later partner    *)
+(* as the first member of a pair.  Without such twins the answer is exactly IdentifyEquilibria. *)
+SameAllStoich(r1, r2) == \A s \in RKeys(r1) \cup RKeys(r2) :
+    AllReac(r1, s) = AllReac(r2, s) /\ AllProd(r1, s) = AllProd(r2, s)
+StoichDistinct(sys) == \A i, j \in RIdx(sys) : i # j => ~SameAllStoich(sys.rx[i], sys.rx[j])
+EqForward(sys) == { p[1] : p \in IdentifyEquilibria(sys) }
+EquilibriaOK(sys, pairs) ==
+    IF StoichDistinct(sys) THEN pairs = SortPairs(IdentifyEquilibria(sys))
+    ELSE /\ IsInj(pairs) /\ ToSet(pairs) \subseteq IdentifyEquilibria(sys)
+         /\ { pairs[k][1] : k \in DOMAIN pairs } = EqForward(sys)
 
 Participation(sys, s) == { i \in RIdx(sys) : s \in RKeys(sys.rx[i]) }
 Effect(sys, s) == { <<i, RNet(sys.rx[i], s)>> : i \in { j \in RIdx(sys) : RNet(sys.rx[j], s) # 0 } }
@@ -151,7 +167,7 @@ MergeComp(x, y) == IF x.comp = <<>> /\ y.comp = <<>> THEN <<>>
 SysEq(x, y) == x.rx = y.rx /\ x.ss = y.ss
 (* concatenation: reactions of the second system whose stoichiometry already occurs in the    *)
 (* first go to the "duplicates" system, the others are appended                                *)
-ConcatNew(x, y) == { j \in RIdx(y) : \A i \in RIdx(x) : x.rx[i] # y.rx[j] }
+ConcatNew(x, y) == { j \in RIdx(y) : \A i \in RIdx(x) : ~SameRx(x.rx[i], y.rx[j]) }
 
 (* per-substance conversions, in substance order *)
 AsArray(sys, d) == [i \in 1..Len(sys.ss) |-> d[sys.ss[i]]]
@@ -200,7 +216,8 @@ QueryExp(sys, kind, arg) ==
             cat |-> LET c == Categorize(sys) IN
                     [accumulated |-> SortSpecies(c.accumulated), depleted |-> SortSpecies(c.depleted),
                      unaffected |-> SortSpecies(c.unaffected), nonparticipating |-> SortSpecies(c.nonparticipating)],
-            eqdef |-> NoDup(sys),
+            eqdef |-> StoichDistinct(sys),      \* FALSE: eq is the set of admissible pairs, judged by EquilibriaOK
+            eqfw |-> SortInts(EqForward(sys)),
             eq |-> SortPairs(IdentifyEquilibria(sys)),
             part |-> SpeciesMap(sys, LAMBDA s : SortInts(Participation(sys, s))),
             eff |-> SpeciesMap(sys, LAMBDA s : SortPairs(Effect(sys, s)))]
@@ -237,7 +254,7 @@ MakeSubst(rxs, mode, given) ==
       [] OTHER           -> given       \* "list", "str", "odict": order kept
 MakeRefused(rxs, mode, given) ==
     LET keys == UNION { RKeys(rxs[i]) : i \in DOMAIN rxs } IN
-    \/ \E i, j \in DOMAIN rxs : i # j /\ rxs[i] = rxs[j]
+    \/ \E i, j \in DOMAIN rxs : i # j /\ SameRx(rxs[i], rxs[j])
     \/ (mode # "deduce" /\ ~(keys \subseteq ToSet(given)))
 
 (* Make: construct a system from reactions and a substance specification.  The constructor   *)
